@@ -23,7 +23,7 @@ from vf.lang import (
 )
 from vf.props.c01 import ast_signature
 
-KINDS = ["marginal", "marginal", "lognorm", "plate", "mixture", "mixture_all", "twostep", "integrate_var", "integrate_gauss", "moment", "deficient", "boundary", "integrate_signed", "gauss_all", "mixture_pair"]
+KINDS = ["marginal", "marginal", "lognorm", "plate", "mixture", "mixture_all", "twostep", "integrate_var", "integrate_gauss", "moment", "deficient", "boundary", "integrate_signed", "gauss_all", "mixture_pair", "reuse"]
 
 
 def rspec(name):
@@ -123,6 +123,36 @@ def gen_case(src):
         red_r = g.subset(red_r, 1, len(red_r)) if red_r else []
         red_i = g.subset(ii, 1, len(ii)) if ii else []
         node = ("red", "logaddexp", leaf2, tuple(red_i) + rv(red_r)) if (red_i or red_r) else ("red", "logaddexp", leaf2, rv(rr))
+    elif kind == "reuse":
+        # one Gaussian object used twice: normalised (or marginalised) as it is - which fills its lazily cached
+        # factorisations - and again after one of its integer inputs was renamed / sliced / indexed / bound
+        lf = leaf
+        for _ in range(8):
+            if lf[1]:
+                break
+            lf = gauss_leaf(g, avail, rank_mode=g.pick(["full", "over"]))
+        rr = [n for n, sh in lf[2]]
+        ii = [(n, s_) for n, s_ in lf[1]]
+        first_vars = rr if g.chance(0.6) else g.subset(rr, 1, len(rr))
+        first = ("red", "logaddexp", lf, rv(first_vars))
+        second_src = lf
+        if ii:
+            iname, isz = g.pick(ii)
+            r = g.rint((0, 4))
+            if r == 0:
+                val = ("pynum", g.rint((0, isz - 1)))
+            elif r == 1:
+                val = g.slice_node(avail, isz)
+            elif r == 2:
+                val = g.ten(avail, (isz, ()))
+            else:
+                val = ("pyname", g.fresh(isz))
+            second_src = ("sub", lf, ((iname, val),))
+        second_vars = rr if g.chance(0.7) else g.subset(rr, 1, len(rr))
+        second = ("red", "logaddexp", second_src, rv(second_vars))
+        if g.chance(0.3):
+            second = ("red", "logaddexp", second, tuple((n_, d_[0]) for n_, d_ in typeof(second)[0].items() if d_[0] != "real")[:1]) if any(d_[0] != "real" for d_ in typeof(second)[0].values()) else second
+        node = ("bin", "add", first, second) if g.chance(0.8) else ("bin", "add", second, first)
     elif kind == "mixture_pair":
         # two Tensor + Gaussian mixtures contracted together; an integer variable of the weights that no Gaussian mentions
         # is among the reduced ones
